@@ -71,6 +71,7 @@ def check(repo, col, tier):
     # compartment of the parent and the FIRST of each child (shared with C01/C12/C13/C15)
     col.rule("R-C02-ends", "branch-point edges attach at each branch's own first / last compartment", 4)
     c01_solver._ends(repo, col, "R-C02-ends")
+    c01_solver.category_major(repo, col, "R-C02-ends")
     col.rule("R-C02-levels", "level bookkeeping, branch-point grouping and within-branch edge tables", 8)
     c01_solver._levels(repo, col, "R-C02-levels")
 
